@@ -620,6 +620,10 @@ def r3b(facts):
                                 break
                         if seen_def and seen_end and not bad:
                             ok = 'rest-of-file idiom: %s = tell(); seek(0, END); tell() - %s' % (show(r), show(r))
+                    if ok is None and 'callee' in l and short(callee_name(l)) == 'fileSize' and r.get('k') == 'DeclRefExpr' and r.get('id') in defs and \
+                            all(is_tell(d) for d in defs[r['id']]):
+                        # fileSize() - <earlier tell()>: the reader clamps its cursor to the file size (C01.R1 reader guard)
+                        ok = 'fileSize() minus an earlier tell(): the cursor never exceeds the file size'
                     if ok is None:
                         # find the statement holding the subtraction to take its guard facts
                         for b2, j2, st2 in fn.cfg.stmts():
